@@ -16,7 +16,7 @@ def run(ctx, factor):
                 "macro files; compiled regex of the macro rule must equal that of the original (inlined) rule on the "
                 "real code; the macro definitions are deep-compared before/after expansion; expanded tree vs the model's")
     REGEXY = [r"%r[abcd]x\b", r"0x\d+", r"a\\b", r"\w+q", r"%[re]?[abcd][xl]", r"\$0x[0-9a-f]{2}", r"x\.y", r"r\d\d?d", "%r[0-9][0-9]", "[a-f][a-f]x", "0x0x0", "aaaa", "%xmm1%xmm1"]
-    for it in range(ctx.budget(500, 8000) * factor):
+    for it in range(ctx.budget(900, 8000) * factor):
         doc = gen_rules.rule(g, {"ops", "logic", "times", "ops_logic", "not", "deref"}, depth=2)
         if it % 9 == 0:
             # names are regular-expression fragments: a macro body may hold backslash escapes, and must be inserted verbatim
